@@ -46,9 +46,10 @@ class Summary(object):
 
 
 class FdAnalysis(object):
-    def __init__(self, prog, summ):
+    def __init__(self, prog, summ, panics=None):
         self.prog = prog
         self.summ = summ
+        self.panics = panics      # jv.summaries.Summaries (may_panic), used only in the final pass
 
     def relevant(self, fn):
         S = self.summ
@@ -294,6 +295,14 @@ class FdAnalysis(object):
             for n in blk.elems:
                 is_exit = n.k == "return" or (n.k == "call" and n.callee and prog.is_noreturn(n.callee)
                                               and n.callee not in ("abort", "exit", "_exit"))
+                # a call that can raise (argument decoders, anything reaching janet_panic) leaves the function too
+                if not is_exit and n.k == "call" and self.panics is not None and n.callee not in S.closers \
+                        and n.callee not in S.owners and self.panics.call_in(fn, n, self.panics.may_panic):
+                    for s_ in Sx:
+                        for f in s_:
+                            if f[0] == "open" and (f[2], n.id) not in reported and not any(_uses(a, f[1]) for a in n.args):
+                                reported.add((f[2], n.id))
+                                findings.append((f[2], f[1], "raise", n))
                 if is_exit:
                     S2 = T(Sx, n) if n.k == "return" else Sx
                     for s in S2:
@@ -359,7 +368,8 @@ def run(chk, prog):
     chk.note("C20-FD derived acquirers: returns %s; out-parameters %s; array fillers %s; closers %s" % (
         sorted(summ.returns_fd), dict((k, sorted(v)) for k, v in summ.outparams.items()),
         dict((k, v) for k, v in summ.arrayparam.items() if k not in ARRAY_ACQUIRE), sorted(summ.closers - set(CLOSERS))))
-    A = FdAnalysis(prog, summ)
+    from jv.summaries import Summaries
+    A = FdAnalysis(prog, summ, Summaries(prog))
     nsites = 0
     for fn in prog.all_funcs():
         if not A.relevant(fn):
@@ -381,9 +391,10 @@ def run(chk, prog):
             src = fn.nodes[nid]
             seen = set()
             for (var, how, node) in bad[sid]:
-                if (var, how) in seen:
+                via = node.callee if (node is not None and node.k == "call") else ""
+                if (var, how, via) in seen:
                     continue
-                seen.add((var, how))
+                seen.add((var, how, via))
                 if how == "overwritten":
                     chk.violation(RULE, fn.tu.name, fn.name, "%s:overwritten" % var, src.loc,
                                   "descriptor `%s` obtained at line %d is overwritten by a new one while still open" % (var, src.ln))
@@ -391,7 +402,7 @@ def run(chk, prog):
                     chk.violation(RULE, fn.tu.name, fn.name, "%s:end" % var, src.loc,
                                   "descriptor `%s` obtained at line %d is still open and unowned at the end of the function" % (var, src.ln))
                 else:
-                    chk.violation(RULE, fn.tu.name, fn.name, "%s:%s" % (var, how), node.loc,
+                    chk.violation(RULE, fn.tu.name, fn.name, "%s:%s%s" % (var, how, ("@" + via) if via else ""), node.loc,
                                   "descriptor `%s` obtained at line %d (%s) is still open and unowned when the function leaves "
                                   "through `%s`" % (var, src.ln, desc, node.text()[:50]),
                                   ["acquire %s: %s" % (src.loc, src.text()[:80]), "exit    %s: %s" % (node.loc, node.text()[:80])])
